@@ -56,6 +56,9 @@ var commands = map[string]command{
 	"client-replay":       clientReplay,
 	"transform-replay":    transformReplay,
 	"longform-replay":     longformReplay,
+	"jcs-replay":          jcsReplay,
+	"jcs-trace":           jcsTrace,
+	"jws-replay":          jwsReplay,
 }
 
 func main() {
